@@ -262,6 +262,15 @@ func WriteBufferToFileIndirect(fp stdio.ReadWriteSeeker, buffer wal.OffsetIndexB
 // In order to improve testability, use this function instead of the static WriteCSM function.
 func (w *Writer) WriteCSM(csm io.ColumnSeriesMap, isVariableLength bool) error {
 	start := time.Now()
+	// Write commands are queued only after every bucket of the request has passed validation,
+	// so that a rejected request leaves nothing behind for the next flush.
+	type pendingWrite struct {
+		times   []time.Time
+		rowData []byte
+		dbDSV   []io.DataShape
+		tbi     *io.TimeBucketInfo
+	}
+	pending := make([]pendingWrite, 0, len(csm))
 	for tbk, cs := range csm {
 		tf, err := tbk.GetTimeFrame()
 		if err != nil {
@@ -348,9 +357,11 @@ func (w *Writer) WriteCSM(csm io.ColumnSeriesMap, isVariableLength bool) error {
 		if err != nil {
 			return fmt.Errorf("convert column series to row series. tbk=%s: %w", tbk, err)
 		}
-		err = w.WriteRecords(times, rowData, dbDSV, tbi)
-		if err != nil {
-			return fmt.Errorf("write records to %v: %w", tbi, err)
+		pending = append(pending, pendingWrite{times: times, rowData: rowData, dbDSV: dbDSV, tbi: tbi})
+	}
+	for _, p := range pending {
+		if err := w.WriteRecords(p.times, p.rowData, p.dbDSV, p.tbi); err != nil {
+			return fmt.Errorf("write records to %v: %w", p.tbi, err)
 		}
 	}
 
